@@ -35,6 +35,8 @@ ATOMIC_LIBCALLS = {
     '__atomic_load_16': '__verif_atomic_load16',
     '__atomic_store_16': '__verif_atomic_store16',
     '__atomic_exchange_16': '__verif_atomic_xchg16',
+    '__atomic_load': '__verif_atomic_load_n', '__atomic_store': '__verif_atomic_store_n',
+    '__atomic_exchange': '__verif_atomic_xchg_n', '__atomic_compare_exchange': '__verif_atomic_cas_n',
 }
 
 def default_stubs():
@@ -61,6 +63,7 @@ def default_stubs():
         '__cxa_guard_acquire': '__verif_guard_acquire', '__cxa_guard_release': '__verif_guard_release',
         '__cxa_guard_abort': lambda a: '(void)0',
         'pthread_self': lambda a: '__verif_pthread_self()',
+        '_ZSt11_Hash_bytesPKvmm': '__verif_hash_bytes',
         'pthread_mutex_unlock': '__verif_mutex_unlock', 'pthread_mutex_trylock': '__verif_mutex_trylock_rc',
         'pthread_mutex_init': '__verif_mutex_init', 'pthread_mutex_destroy': lambda a: '0',
         'pthread_mutexattr_init': '__verif_mutexattr_init', 'pthread_mutexattr_settype': '__verif_mutexattr_settype',
@@ -69,11 +72,11 @@ def default_stubs():
     }
 
 class Emit:
-    def __init__(s, m, roots, nthreads=1, coro=False, shift_check=False, spin=None, nsw_check=False):
+    def __init__(s, m, roots, nthreads=1, coro=False, shift_check=False, spin=None, nsw_check=False, guard_style=True):
         s.m = m; s.names = {}; s.used = set(); s.lit = collections.OrderedDict()
         s.roots = roots; s.stubs = default_stubs(); s.externs = set(); s.asm_seen = set()
         s.yielders = set(); s.nthreads = nthreads; s.tid = None; s.coro = coro
-        s.shift_check = shift_check; s.nsw_check = nsw_check
+        s.shift_check = shift_check; s.nsw_check = nsw_check; s.guard_style = guard_style
         s.spin = spin or []          # list of (compiled regex, U)
         s.report = {'functions': {}, 'stubs_used': set(), 'asm': set(), 'spin_loops': [], 'yield_points': 0,
                     'externals': [], 'intrinsics': set()}
@@ -338,7 +341,9 @@ class Emit:
 
     # ---------------- function body
     def emit_fn(s, f, tid=None):
-        s.tid = tid; coro = tid is not None; s.ny = 0; resume = []
+        s.tid = tid; coro = tid is not None; s.ny = 0; resume = []; s.cur_f = f
+        gs = coro and s.guard_style      # guarded-execution clones (MODE flag) vs goto-dispatch clones (jump to the resume label, return at a yield)
+        s.gs = gs
         s.fnames = {}
         used = set()
         def local(n):
@@ -400,15 +405,27 @@ class Emit:
         body = []; decls = []; sdecls = []
         def declare(t, name, res=None):
             d = s.cty(t, name) + ';'
-            if coro and (res is None or res in static_vals): sdecls.append('static ' + d)
+            if gs: sdecls.append('static ' + d)      # every value persists: a resumed clone re-walks its CFG with execution switched off
+            elif coro and (res is None or res in static_vals): sdecls.append('static ' + d)
             else: decls.append(d)
         retdummy = ''
         if coro and not isinstance(f.ret, VoidTy):
             retdummy = ' retdummy_'
+        s.gopen = False
+        def g_open():
+            if gs and not s.gopen: body.append('  if (MODE == 1) {'); s.gopen = True
+        def g_close():
+            if s.gopen: body.append('  }'); s.gopen = False
+        s.g_open = g_open; s.g_close = g_close
         def yld(kind):
             if not coro: return
             s.ny += 1; i = s.ny; resume.append((i, 'Y%d' % i)); s.report['yield_points'] += 1
-            body.append('  if (__verif_yield()) { PC = %d; __verif_yielding = 1; return%s; } Y%d: ; /* before %s */' % (i, retdummy, i, kind))
+            if not gs:
+                body.append('  if (__verif_yield()) { PC = %d; __verif_yielding = 1; return%s; } Y%d: ; /* before %s */' % (i, ' RETV' if retdummy else '', i, kind))
+                return
+            g_close()
+            body.append('  if (MODE == 1) { if (__verif_yield()) { PC = %d; MODE = 2; __verif_yielding = 1; } } else if (MODE == 0 && PC == %d) { MODE = 1; } /* before %s */' % (i, i, kind))
+            g_open()
         s.coro_resume = resume; s.coro_retdummy = retdummy
         labels = {bn: 'L' + re.sub(r'[^A-Za-z0-9_]', '_', bn[1:].strip('"')) for bn in f.blocks}
         phis = collections.defaultdict(list)
@@ -422,13 +439,25 @@ class Emit:
         raw_name = f.name[1:].strip('"')
         for (rx, U) in s.spin:
             if rx.search(raw_name): spinU = U
-        bedges = s.back_edges(f) if spinU is not None else set()
+        bedges = s.back_edges(f) if (spinU is not None or gs) else set()
+        all_bedges = bedges
+        if spinU is None: bedges = set()
         spin_ctr = {}
         for k, e in enumerate(sorted(bedges)):
             spin_ctr[e] = 'spin_%d' % k
             (sdecls if coro else decls).append(('static ' if coro else '') + 'unsigned spin_%d;' % k)
             s.report['spin_loops'].append({'function': raw_name, 'edge': [e[0], e[1]], 'U': spinU})
         def jump(frm, to):
+            if gs:
+                # execution switched off (MODE 0: walking to the resume point, MODE 2: already yielded): follow the edge without
+                # its phi copies; a back edge is never followed then (MODE 0 cannot reach one in a reducible CFG - asserted)
+                cp = jump_run(frm, to)
+                if (frm, to) in all_bedges:
+                    return 'if (MODE == 1) { %s } __verif_assert(MODE != 0, "coroutine resume reached a loop back edge"); goto LEND;' % cp
+                if cp == 'goto %s;' % labels[to]: return cp
+                return 'if (MODE == 1) { %s } goto %s;' % (cp, labels[to])
+            return jump_run(frm, to)
+        def jump_run(frm, to):
             mv = phis.get((frm, to), [])
             out = ''
             if (frm, to) in spin_ctr:
@@ -444,9 +473,13 @@ class Emit:
                 out += '{ ' + o2 + '} '
             return out + 'goto %s;' % labels[to]
         for bn, insts in f.blocks.items():
+            g_close()
             body.append('%s: ;' % labels[bn])
             for I in insts:
                 op = I['op']; r = I['res']; rn = s.fnames.get(r)
+                if gs:
+                    if op in ('ret', 'br', 'switch', 'unreachable', 'phi'): g_close()
+                    else: g_open()
                 def setres(t, e):
                     declare(t, rn, r)
                     body.append('  %s = %s;' % (rn, e))
@@ -531,8 +564,13 @@ class Emit:
                     s.emit_call(I, r, rn, declare, body, yld)
                     if op == 'invoke': body.append('  ' + jump(bn, I['normal']))
                 elif op == 'ret':
-                    if coro: body.append('  PC = 0;')
-                    body.append('  return %s;' % (s.val(*I['val']) if I['val'] else ''))
+                    if gs:
+                        body.append('  if (MODE == 1) { PC = 0; %s} goto LEND;' % (('RETV = %s; ' % s.val(*I['val'])) if I['val'] else ''))
+                    elif coro:
+                        body.append('  PC = 0;')
+                        body.append('  return %s;' % (s.val(*I['val']) if I['val'] else ''))
+                    else:
+                        body.append('  return %s;' % (s.val(*I['val']) if I['val'] else ''))
                 elif op == 'br':
                     if 'dest' in I: body.append('  ' + jump(bn, I['dest']))
                     else:
@@ -565,7 +603,8 @@ class Emit:
                         else: e += '[%d]' % i; tt = rr.el
                     body.append('  %s = %s;' % (e, s.val(*I['b'])))
                 elif op == 'unreachable':
-                    body.append('  __verif_unreachable();')
+                    if gs: body.append('  if (MODE == 1) __verif_unreachable(); goto LEND;')
+                    else: body.append('  __verif_unreachable();')
                 else:
                     raise Unsupported(op)
         nlines = sum(len(b) for b in f.blocks.values())
@@ -577,12 +616,30 @@ class Emit:
             return hdr + '\n{\n  ' + '\n  '.join(decls) + '\n' + '\n'.join(body) + '\n}\n'
         ps = ', '.join(s.cty(t, 'p_' + s.fnames[n]) for (t, n) in f.params) or 'void'
         hdr = s.cty(f.ret, '%s_T%d(%s)' % (s.cname(f.name), tid, ps))
-        sd = sdecls + ['static ' + s.cty(t, s.fnames[n]) + ';' for (t, n) in f.params] + ['static int PC;']
-        if retdummy: sd.append('static ' + s.cty(f.ret, 'retdummy_') + ';')
-        entry = '  if (PC == 0) { %s %s }\n' % (' '.join('%s = p_%s;' % (s.fnames[n], s.fnames[n]) for (t, n) in f.params),
+        if not gs:
+            sd = sdecls + ['static ' + s.cty(t, s.fnames[n]) + ';' for (t, n) in f.params] + ['static int PC;']
+            if retdummy: sd.append('static ' + s.cty(f.ret, 'RETV') + ';')
+            entry = '  if (PC == 0) { %s %s }\n' % (' '.join('%s = p_%s;' % (s.fnames[n], s.fnames[n]) for (t, n) in f.params),
+                                                    ' '.join('%s = 0;' % c for c in spin_ctr.values()))
+            entry += ''.join('  else if (PC == %d) goto %s;\n' % (i, l) for (i, l) in resume)
+            return hdr + '\n{\n  ' + '\n  '.join(sd + decls) + '\n' + entry + '\n'.join(body) + '\n}\n'
+        g_close()
+        sd = sdecls + ['static ' + s.cty(t, s.fnames[n]) + ';' for (t, n) in f.params] + ['static int PC;', 'int MODE;']
+        if retdummy: sd.append('static ' + s.cty(f.ret, 'RETV') + ';')
+        # MODE 1 = executing, 0 = walking (execution off) to the resume point PC, 2 = yielded in this call (execution off until LEND)
+        entry = '  if (PC == 0) { MODE = 1; %s %s } else { MODE = 0; }\n' % (' '.join('%s = p_%s;' % (s.fnames[n], s.fnames[n]) for (t, n) in f.params),
                                                 ' '.join('%s = 0;' % c for c in spin_ctr.values()))
-        entry += ''.join('  else if (PC == %d) goto %s;\n' % (i, l) for (i, l) in resume)
-        return hdr + '\n{\n  ' + '\n  '.join(sd + decls) + '\n' + entry + '\n'.join(body) + '\n}\n'
+        tail = '\nLEND: ;\n  return%s;' % (' RETV' if retdummy else '')
+        return hdr + '\n{\n  ' + '\n  '.join(sd + decls) + '\n' + entry + '\n'.join(body) + tail + '\n}\n'
+
+    def alloc_cast_type(s, r):
+        """struct type T if register r (an i8* returned by an allocation) is bitcast to T* in the current function"""
+        for insts in s.cur_f.blocks.values():
+            for I in insts:
+                if I['op'] == 'bitcast' and I['a'] == ('reg', r) and isinstance(I['tty'], PtrTy):
+                    t = I['tty'].to
+                    if isinstance(t, (NamedTy, StructTy)) and isinstance(s.resolve(t), StructTy): return t
+        return None
 
     def cstring_of(s, v):
         """string literal behind an i8* constant operand (for __verif_assert messages)"""
@@ -642,6 +699,17 @@ class Emit:
                 s.report['stubs_used'].add(raw)
                 yld('atomic libcall ' + raw)
                 setres('%s(%s)' % (ATOMIC_LIBCALLS[raw], ', '.join(args))); return
+            if raw in ('_Znwm', '_Znam', 'malloc') and I['args'] and I['args'][0][1][0] == 'int' and r:
+                # typed allocation: the result is (bit)cast to a struct pointer of exactly that size -> malloc(sizeof(struct T)), so that cbmc
+                # creates a field-sensitive typed object instead of a byte array (the size equality is checked by the C compiler)
+                tt = s.alloc_cast_type(r)
+                if tt is not None:
+                    s.report['stubs_used'].add(raw)
+                    declare(rt, rn, r)
+                    N = I['args'][0][1][1]; T = s.cty(tt)
+                    body.append('  _Static_assert(%d %% sizeof(%s) == 0 && %d >= sizeof(%s), "typed allocation size"); %s = (unsigned char *)(%d == sizeof(%s) ? malloc(sizeof(%s)) : malloc(sizeof(%s) * (%d / sizeof(%s)))); __verif_assume(%s != 0);'
+                                % (N, T, N, T, rn, N, T, T, T, N, T, rn))
+                    return
             st = None; found = False
             if raw in s.stubs: st = s.stubs[raw]; found = True
             else:
@@ -653,9 +721,15 @@ class Emit:
             s.need(n)
             if s.tid is not None and n in s.yielders:
                 s.ny += 1; i = s.ny; s.coro_resume.append((i, 'C%d' % i))
-                body.append('  C%d: ;' % i)
+                if not s.gs:
+                    body.append('  C%d: ;' % i)
+                    setres('%s_T%d(%s)' % (s.cname(n), s.tid, ', '.join(args)))
+                    body.append('  if (__verif_yielding) { PC = %d; return%s; }' % (i, ' RETV' if s.coro_retdummy else ''))
+                    return
+                s.g_close()
+                body.append('  if (MODE == 1 || (MODE == 0 && PC == %d)) {' % i)
                 setres('%s_T%d(%s)' % (s.cname(n), s.tid, ', '.join(args)))
-                body.append('  if (__verif_yielding) { PC = %d; return%s; }' % (i, s.coro_retdummy))
+                body.append('  if (__verif_yielding) { PC = %d; MODE = 2; } else { MODE = 1; } }' % i)
             else:
                 setres('%s(%s)' % (s.cname(n), ', '.join(args)))
         else:
@@ -663,7 +737,11 @@ class Emit:
             fp = s.val(None, callee)
             if s.tid is not None and ycands:
                 s.ny += 1; i = s.ny; s.coro_resume.append((i, 'C%d' % i))
-                body.append('  C%d: ;' % i)
+                if s.gs:
+                    s.g_close()
+                    body.append('  if (MODE == 1 || (MODE == 0 && PC == %d)) {' % i)
+                else:
+                    body.append('  C%d: ;' % i)
                 first = True
                 for n in cands:
                     s.need(n)
@@ -672,7 +750,8 @@ class Emit:
                     setres('%s(%s)' % (nm, ', '.join(args)))
                     body.append('  }')
                 body.append('  else { __verif_assert(0, "indirect call target unknown"); __verif_assume(0); }')
-                body.append('  if (__verif_yielding) { PC = %d; return%s; }' % (i, s.coro_retdummy))
+                if s.gs: body.append('  if (__verif_yielding) { PC = %d; MODE = 2; } else { MODE = 1; } }' % i)
+                else: body.append('  if (__verif_yielding) { PC = %d; return%s; }' % (i, ' RETV' if s.coro_retdummy else ''))
             else:
                 for n in cands: s.need(n)
                 fty = FnTy(rt, [t for (t, _) in I['args']], False)
@@ -918,6 +997,7 @@ def main():
     ap.add_argument('--threads', type=int, default=1)
     ap.add_argument('--coro', action='store_true')
     ap.add_argument('--shift-check', action='store_true')
+    ap.add_argument('--coro-style', default='guard', choices=['guard', 'goto'])
     ap.add_argument('--spin', action='append', default=[])
     ap.add_argument('--report')
     a = ap.parse_args()
@@ -926,7 +1006,7 @@ def main():
     spin = []
     for sp in a.spin:
         rx, U = sp.rsplit('=', 1); spin.append((re.compile(rx), int(U)))
-    e = Emit(m, a.roots.split(','), nthreads=a.threads, coro=a.coro, shift_check=a.shift_check, spin=spin)
+    e = Emit(m, a.roots.split(','), nthreads=a.threads, coro=a.coro, shift_check=a.shift_check, spin=spin, guard_style=(a.coro_style == 'guard'))
     try:
         c = e.run()
     except (Unsupported, SyntaxError, KeyError, TypeError, ValueError) as ex:
